@@ -71,6 +71,7 @@ func H_C11_location() {
 	vxrt.Chdir()
 	trim := vxrt.Bool("trimpath")
 	vxrt.Trimpath(trim)
+	calibrateSnapshotPath()
 	n := vxrt.Param("n", 2)
 	testDir := vxrt.TestFileDir()
 
@@ -213,6 +214,7 @@ func replaceSlash(s string) string {
 // function's file (the outermost frame), not to the file of whatever frame sits next to go-snaps.
 func H_C11_nontest() {
 	vxrt.Chdir()
+	calibrateSnapshotPath()
 	var opts []func(*Config)
 	dirOpt := "__snapshots__"
 	switch vxrt.Choice("dir", 3) {
